@@ -3,6 +3,7 @@ package rec
 import (
 	"fmt"
 	"net"
+	"os"
 	"sync"
 	"time"
 )
@@ -67,12 +68,18 @@ type Conn struct {
 	FailWriteErr     error
 	FailWritePartial int
 	FailWriteOnce    bool
-	failedOnce       bool
-	closed           chan struct{}
-	once             sync.Once
-	ID               int
-	msgs             int
-	pending          int
+	// StallWriteFrom: from the n-th TTLV message on (0 = never) the peer has stopped reading: Write blocks until the write
+	// deadline in force passes (then reports os.ErrDeadlineExceeded, nothing delivered) or, without one, until Close
+	StallWriteFrom int
+	stallMsgs      int
+	stallPending   int
+	wdl            time.Time
+	failedOnce     bool
+	closed         chan struct{}
+	once           sync.Once
+	ID             int
+	msgs           int
+	pending        int
 	// OnClose runs synchronously inside the first Close call
 	OnClose func()
 }
@@ -87,6 +94,35 @@ func (c *Conn) Read(p []byte) (int, error) {
 }
 
 func (c *Conn) Write(p []byte) (int, error) {
+	if c.StallWriteFrom > 0 {
+		c.L.mu.Lock()
+		if c.stallPending == 0 && len(p) >= 8 {
+			c.stallMsgs++
+			c.stallPending = 8 + (int(p[4])<<24 | int(p[5])<<16 | int(p[6])<<8 | int(p[7]))
+		}
+		stall := c.stallMsgs >= c.StallWriteFrom
+		if !stall {
+			c.stallPending -= len(p)
+			if c.stallPending < 0 {
+				c.stallPending = 0
+			}
+		}
+		dl := c.wdl
+		c.L.mu.Unlock()
+		if stall {
+			c.L.Add("writeStall")
+			if dl.IsZero() {
+				<-c.closed
+				return 0, net.ErrClosed
+			}
+			select {
+			case <-time.After(time.Until(dl)):
+				return 0, os.ErrDeadlineExceeded
+			case <-c.closed:
+				return 0, net.ErrClosed
+			}
+		}
+	}
 	if c.FailWriteRun > 0 {
 		// count TTLV messages by their declared lengths: the n-th message (and everything after) is refused
 		c.L.mu.Lock()
@@ -150,6 +186,9 @@ func (c *Conn) SetReadDeadline(t time.Time) error {
 }
 
 func (c *Conn) SetWriteDeadline(t time.Time) error {
+	c.L.mu.Lock()
+	c.wdl = t
+	c.L.mu.Unlock()
 	if !t.IsZero() {
 		c.L.Add("armWrite")
 	} else {
@@ -159,6 +198,9 @@ func (c *Conn) SetWriteDeadline(t time.Time) error {
 }
 
 func (c *Conn) SetDeadline(t time.Time) error {
+	c.L.mu.Lock()
+	c.wdl = t
+	c.L.mu.Unlock()
 	c.L.Add("armBoth")
 	return c.Conn.SetDeadline(t)
 }
